@@ -104,6 +104,9 @@ func (x *Exec) native(name string, fn *ssa.Function, args []Value) (Value, bool)
 		format := mustStr(args[0])
 		var as []interface{}
 		if vals := x.sliceVals(args[1].(SliceV)); name == "fmt.Sprintf" {
+			if r, ok := x.simpleSprintf(format, vals); ok {
+				return r, true
+			}
 			symbolic := false
 			for _, v := range vals {
 				if iv, ok := v.(Iface); ok {
@@ -497,6 +500,53 @@ func (x *Exec) intSlice(v []int) Value {
 		a.e[i] = &Cell{v: BV(uint64(int64(v[i])), 64)}
 	}
 	return SliceV{a: a, len: len(v), cap: len(v)}
+}
+
+// simpleSprintf evaluates formats made only of literal text, %% and plain %s verbs over string / []byte
+// operands exactly (concatenation), also when the operands are symbolic
+func (x *Exec) simpleSprintf(format string, vals []Value) (Value, bool) {
+	var out []*Term
+	ai := 0
+	for i := 0; i < len(format); i++ {
+		if format[i] != '%' {
+			out = append(out, BV(uint64(format[i]), 8))
+			continue
+		}
+		i++
+		if i >= len(format) {
+			return nil, false
+		}
+		switch format[i] {
+		case '%':
+			out = append(out, BV('%', 8))
+		case 's':
+			if ai >= len(vals) {
+				return nil, false
+			}
+			iv, ok := vals[ai].(Iface)
+			ai++
+			if !ok {
+				return nil, false
+			}
+			switch u := iv.v.(type) {
+			case *Str:
+				out = append(out, u.b...)
+			case SliceV:
+				if _, isByte := iv.t.Underlying().(*types.Slice); !isByte {
+					return nil, false
+				}
+				out = append(out, x.sliceBytes(u)...)
+			default:
+				return nil, false
+			}
+		default:
+			return nil, false
+		}
+	}
+	if ai != len(vals) {
+		return nil, false
+	}
+	return &Str{b: out}, true
 }
 
 // OpaqueStr is the string produced by formatting a symbolic number: an uninterpreted function of
